@@ -51,7 +51,7 @@ fn small_limits() -> RemovalLimits {
     RemovalLimits { removed_activities_range: 1..6, affected_routes_range: 1..3 }
 }
 
-fn make_ruin(k: u8, problem: &Arc<CoreProblem>) -> Arc<dyn Ruin> {
+pub fn make_ruin(k: u8, problem: &Arc<CoreProblem>) -> Arc<dyn Ruin> {
     let l = small_limits();
     match k as usize % RUINS.len() {
         0 => Arc::new(AdjustedStringRemoval::new_with_defaults(l)),
@@ -66,7 +66,7 @@ fn make_ruin(k: u8, problem: &Arc<CoreProblem>) -> Arc<dyn Ruin> {
     }
 }
 
-fn make_recreate(k: u8, random: Arc<dyn Random>) -> Arc<dyn Recreate> {
+pub fn make_recreate(k: u8, random: Arc<dyn Random>) -> Arc<dyn Recreate> {
     match k as usize % RECREATES.len() {
         0 => Arc::new(RecreateWithCheapest::new(random)),
         1 => Arc::new(RecreateWithSkipBest::new(1, 2, random)),
